@@ -54,6 +54,9 @@ type history struct {
 	Items []item `json:"items"`
 }
 
+// runs that did not stop after their context was cancelled: each leaves a goroutine spinning
+var hangs int
+
 var globalNames = []string{"getg", "addg", "boom", "gate", "spin"}
 
 // one world = one VM with its host global, its contexts and the bookkeeping of armed watchers
@@ -307,7 +310,7 @@ func (w *world) invoke(it *item, ctxID int) (string, bool) {
 		}
 	}()
 	t0 := atomic.LoadInt64(&w.ticks)
-	timeout := time.After(10 * time.Second)
+	timeout := time.After(4 * time.Second)
 	poll := time.NewTicker(5 * time.Millisecond)
 	defer poll.Stop()
 	idle := 0
@@ -326,7 +329,12 @@ func (w *world) invoke(it *item, ctxID int) (string, bool) {
 				if idle > 10 {
 					w.isCancel[ctxID] = true
 					w.cancels[ctxID]()
-					<-done
+					select {
+					case <-done:
+					case <-time.After(2 * time.Second):
+						hangs++
+						return "HANG", false
+					}
 					w.settle(0)
 					return "DIVERGE", false
 				}
@@ -336,7 +344,8 @@ func (w *world) invoke(it *item, ctxID int) (string, bool) {
 			w.cancels[ctxID]()
 			select {
 			case <-done:
-			case <-time.After(5 * time.Second):
+			case <-time.After(2 * time.Second):
+				hangs++
 				return "HANG", false
 			}
 			w.settle(0)
@@ -467,6 +476,10 @@ func main() {
 		var h history
 		if err := json.Unmarshal([]byte(line), &h); err != nil {
 			fmt.Fprintf(out, "?\tBADJSON %v\n", err)
+			continue
+		}
+		if hangs >= 2 {
+			fmt.Fprintf(out, "%s\tSKIPPED-AFTER-HANG\n", h.ID)
 			continue
 		}
 		runHistory(&h, out)
